@@ -42,7 +42,7 @@ def conds : List (String × Cond) :=
   [("beq", .beq), ("bne", .bne), ("blt", .blt), ("bge", .bge), ("bltu", .bltu), ("bgeu", .bgeu),
    ("ble", .ble)]
 def loads : List (String × Width) := [("lb", .b), ("lh", .h), ("lw", .w)]
-def stores : List (String × Width) := [("sb", .b), ("sh", .h), ("sw", .w)]
+def stores : List (String × Width) := [("sb", .b), ("sw", .w)]
 
 /-- one instruction line (already trimmed, no comment) -/
 def line (s : String) : Option Instr :=
@@ -56,6 +56,8 @@ def line (s : String) : Option Instr :=
   | _, _, some c, _, _, _, [a, b, l] => do pure (.br c (← parseReg a) (← parseReg b) l)
   | _, _, _, some w, _, _, [a, m] => do let (o, r) ← parseOffReg m; pure (.load w (← parseReg a) r o)
   | _, _, _, _, some w, _, [a, m] => do let (o, r) ← parseOffReg m; pure (.store w (← parseReg a) r o)
+  -- this simulator's assembler writes `sh src, off, base` (three operands) where `sb`/`sw` use `off(base)`
+  | _, _, _, _, _, "sh", [a, o, b] => do pure (.store .h (← parseReg a) (← parseReg b) (← parseImm o))
   | _, _, _, _, _, "lui", [a, b] => do pure (.lui (← parseReg a) (← parseImm b))
   | _, _, _, _, _, "auipc", [a, b] => do pure (.auipc (← parseReg a) (← parseImm b))
   | _, _, _, _, _, "beqz", [a, l] => do pure (.beqz (← parseReg a) l)
